@@ -94,7 +94,7 @@ Definition build_items (rec : bool -> option N -> list key -> lit -> N -> node *
     end.
 Lemma build_node : forall ctx pa p k fl plain its nx,
   build ctx pa p (LitNode k fl plain its) nx =
-  let fl' := if plain then mkFlags false true ctx else fl in
+  let fl' := if plain then mkFlags false true ctx 0 else fl in
   let '(its', nx') := build_items build k (f_partial fl') nx p its 0 (N.succ nx) in
   (ctor_seal (Node nx k pa p fl' its'), nx').
 Proof. reflexivity. Qed.
@@ -159,7 +159,7 @@ Proof.
   - Transparent build. simpl. auto. Opaque build.
   - rewrite build_node. cbv zeta.
     simpl in H0. apply andb_true_iff in H0. destruct H0 as [KV FV].
-    set (fl' := if plain then mkFlags false true ctx else fl).
+    set (fl' := if plain then mkFlags false true ctx 0 else fl).
     assert (W : Forall (child_wf nx p) (fst (build_items build k (f_partial fl') nx p its 0 (N.succ nx)))).
     { apply build_items_wf. rewrite Forall_forall in *. intros kv I c pa' q nx'. apply H; auto.
       rewrite forallb_forall in FV. auto. }
@@ -178,4 +178,206 @@ Lemma build_is_node : forall ctx pa p k fl plain its nx, is_node (fst (build ctx
 Proof.
   intros. rewrite build_node. cbv zeta. destruct (build_items _ _ _ _ _ _ _ _). cbn [fst].
   rewrite ctor_seal_is_node. reflexivity.
+Qed.
+
+(* --- the copy is the same value: same keys, same leaves (identities aside), same classes, same flags ---------------- *)
+Definition holds_no_missing (n : node) : Prop :=
+  match n with
+  | Node _ KList _ _ _ its => Forall (fun kv => is_missing (snd kv) = false) its
+  | _ => True
+  end.
+(* either the implementation does not drop MISSING_VALUE when it copies a list (quirk flag off), or no list below holds one *)
+Definition copy_exact (dm : bool) (n : node) : Prop := dm = false \/ every holds_no_missing n.
+
+Section CloneItems.
+  Variables (rec : option N -> list key -> node -> cstate -> node * cstate) (k : kind) (dm : bool) (me : N) (p : list key).
+  (* a generic "the copy looks the same" lemma over any projection of the items that the recursive call preserves *)
+  Lemma clone_items_same : forall (B : Type) (proj : node -> B) (its : list (key * node)) i cs,
+    (k = KList -> positions i (map fst its)) ->
+    (dm = false \/ k <> KList \/ Forall (fun kv => is_missing (snd kv) = false) its) ->
+    Forall (fun kv => forall pa q cs, proj (fst (rec pa q (snd kv) cs)) = proj (snd kv)) its ->
+    map (fun kv => (fst kv, proj (snd kv))) (fst (clone_items rec k dm me p its i cs)) =
+    map (fun kv => (fst kv, proj (snd kv))) its.
+  Proof.
+    induction its as [|[kk c] r IH]; simpl; intros; auto.
+    inversion H1 as [|? ? Hh Ht]; subst; clear H1. simpl in Hh.
+    assert (D : dm && (match k with KList => is_missing c | _ => false end) = false).
+    { destruct H0 as [E|[E|E]]; [subst; auto| |].
+      - destruct k; try congruence; apply andb_false_r.
+      - inversion E as [|? ? Hm Hr]; subst. simpl in Hm. destruct k; try apply andb_false_r. rewrite Hm; apply andb_false_r. }
+    rewrite D.
+    assert (KK : match k with KList => KI i | _ => kk end = kk).
+    { destruct k; auto. destruct (H eq_refl); auto. }
+    rewrite KK.
+    destruct (rec (Some me) (p ++ [kk]) c cs) as [c' cs1] eqn:R.
+    assert (E1 : proj c' = proj c).
+    { specialize (Hh (Some me) (p ++ [kk]) cs). rewrite R in Hh. exact Hh. }
+    assert (IH' := IH (i + 1) cs1).
+    destruct (clone_items rec k dm me p r (i + 1) cs1) as [r' cs2]. simpl in *.
+    f_equal; [congruence|]. apply IH'; auto.
+    - intros E; destruct (H E); auto.
+    - destruct H0 as [E|[E|E]]; auto. inv E; auto.
+  Qed.
+End CloneItems.
+
+Lemma every_child : forall P i k pa pt fl its kv, every P (Node i k pa pt fl its) -> In kv its -> every P (snd kv).
+Proof. intros. apply every_node in H. destruct H as [_ F]. rewrite Forall_forall in F. auto. Qed.
+
+Lemma clone_at_same : forall (B : Type) (projl : leaf -> B) (mk : kind -> flags -> list (key * B) -> B) dm deep
+    (proj : node -> B),
+  (forall l, proj (Leaf l) = projl l) ->
+  (forall i k pa pt fl its, proj (Node i k pa pt fl its) = mk k fl (map (fun kv => (fst kv, proj (snd kv))) its)) ->
+  (forall l cs, projl (fst (clone_leaf deep l cs)) = projl l) ->
+  forall n pa p cs ep0 epth0, wf_node ep0 epth0 n -> copy_exact dm n ->
+  proj (fst (clone_at dm deep pa p n cs)) = proj n.
+Proof.
+  intros B projl mk dm deep proj PL PN CL n. induction n using node_ind'; intros.
+  - Transparent clone_at. simpl. Opaque clone_at.
+    pose proof (CL l cs). destruct (clone_leaf deep l cs). simpl in *. rewrite !PL. auto.
+  - rewrite clone_at_node. cbv zeta.
+    apply wf_node_unfold in H0. destruct H0 as (_ & _ & K & F).
+    assert (S : map (fun kv => (fst kv, proj (snd kv))) (fst (clone_items (clone_at dm deep) k dm (fst cs) p its 0 (N.succ (fst cs), snd cs)))
+                = map (fun kv => (fst kv, proj (snd kv))) its).
+    { apply clone_items_same.
+      - intros; subst; auto.
+      - destruct H1 as [E|E]; auto. right. destruct k; try (left; congruence). right.
+        apply every_node in E. destruct E as [E _]. exact E.
+      - rewrite Forall_forall in *. intros kv I pa' q cs'. eapply H; eauto.
+        destruct H1 as [E|E]; [left; auto|right]. eapply every_child; eauto. }
+    destruct (clone_items (clone_at dm deep) k dm (fst cs) p its 0 (N.succ (fst cs), snd cs)) as [its' cs'].
+    simpl in *. rewrite !PN. rewrite S. auto.
+Qed.
+
+Lemma clone_leaf_erase : forall deep l cs, erase_leaf (fst (clone_leaf deep l cs)) = erase_leaf l.
+Proof.
+  intros. destruct l; simpl; auto. destruct deep; simpl; auto. destruct (memo_get (snd cs) oid); simpl; auto.
+Qed.
+Theorem clone_erase : forall dm deep n pa p cs ep0 epth0,
+  wf_node ep0 epth0 n -> copy_exact dm n -> erase (fst (clone_at dm deep pa p n cs)) = erase n.
+Proof.
+  intros. eapply (clone_at_same pv (fun l => PLeaf (erase_leaf l)) (fun k _ its => PNode k its)); eauto.
+  intros. f_equal. apply clone_leaf_erase.
+Qed.
+(* the flags of every node, keyed like the tree *)
+Inductive ktree : Type := KLeaf | KNode (fl : flags) (items : list (key * ktree)).
+Fixpoint kflags (n : node) : ktree :=
+  match n with Leaf _ => KLeaf | Node _ _ _ _ fl its => KNode fl (map (fun kv => (fst kv, kflags (snd kv))) its) end.
+Theorem clone_flags : forall dm deep n pa p cs ep0 epth0,
+  wf_node ep0 epth0 n -> copy_exact dm n -> kflags (fst (clone_at dm deep pa p n cs)) = kflags n.
+Proof.
+  intros. eapply (clone_at_same ktree (fun _ => KLeaf) (fun _ fl its => KNode fl its)); eauto.
+Qed.
+(* a shallow copy shares every non-symbolic leaf object with the original: same identities at the same places *)
+Inductive otree : Type := OLeaf (l : leaf) | ONode (items : list (key * otree)).
+Fixpoint oview (n : node) : otree :=
+  match n with Leaf l => OLeaf l | Node _ _ _ _ _ its => ONode (map (fun kv => (fst kv, oview (snd kv))) its) end.
+Theorem shallow_shares_leaves : forall dm n pa p cs ep0 epth0,
+  wf_node ep0 epth0 n -> copy_exact dm n -> oview (fst (clone_at dm false pa p n cs)) = oview n.
+Proof.
+  intros. eapply (clone_at_same otree OLeaf (fun _ _ its => ONode its)); eauto.
+  intros l cs'. destruct l; reflexivity.
+Qed.
+
+(* --- the ids of a copy / of a constructed literal are fresh and distinct ------------------------------------------------ *)
+Definition ids_items (its : list (key * node)) : list N := flat_map (fun kv => ids (snd kv)) its.
+Definition in_range (lo hi : N) (l : list N) : Prop := Forall (fun i => (lo <= i < hi)%N) l.
+Lemma in_range_weaken : forall lo hi lo' hi' l, in_range lo hi l -> (lo' <= lo)%N -> (hi <= hi')%N -> in_range lo' hi' l.
+Proof. unfold in_range; intros. eapply Forall_impl; [|exact H]. simpl; intros; lia. Qed.
+Lemma in_range_app : forall lo hi a b, in_range lo hi a -> in_range lo hi b -> in_range lo hi (a ++ b).
+Proof. unfold in_range; intros; apply Forall_app; auto. Qed.
+Lemma ranges_disjoint : forall a b c l1 l2 x, in_range a b l1 -> in_range b c l2 -> In x l1 -> In x l2 -> False.
+Proof.
+  unfold in_range; intros. rewrite Forall_forall in *. specialize (H _ H1). specialize (H0 _ H2). simpl in *. lia.
+Qed.
+
+Definition fresh_spec (lo : N) (r : node * cstate) : Prop :=
+  (lo <= fst (snd r))%N /\ in_range lo (fst (snd r)) (ids (fst r)) /\ NoDup (ids (fst r)).
+Lemma clone_items_ids : forall rec k dm me p l i cs,
+  Forall (fun kv => forall pa q cs, fresh_spec (fst cs) (rec pa q (snd kv) cs)) l ->
+  (fst cs <= fst (snd (clone_items rec k dm me p l i cs)))%N /\
+  in_range (fst cs) (fst (snd (clone_items rec k dm me p l i cs))) (ids_items (fst (clone_items rec k dm me p l i cs))) /\
+  NoDup (ids_items (fst (clone_items rec k dm me p l i cs))).
+Proof.
+  induction l as [|[kk c] r IH]; simpl; intros.
+  - repeat split. lia. constructor. constructor.
+  - inversion H as [|? ? Hh Ht]; subst; clear H. simpl in Hh.
+    destruct (dm && match k with KList => is_missing c | _ => false end); [apply IH; auto|].
+    specialize (Hh (Some me) (p ++ [match k with KList => KI i | _ => kk end]) cs).
+    destruct (rec (Some me) (p ++ [match k with KList => KI i | _ => kk end]) c cs) as [c' cs1] eqn:R.
+    destruct Hh as (L1 & R1 & N1). simpl in *.
+    specialize (IH (i + 1) cs1 Ht).
+    destruct (clone_items rec k dm me p r (i + 1) cs1) as [r' cs2]. simpl in *.
+    destruct IH as (L2 & R2 & N2).
+    split; [lia|]. split.
+    + apply in_range_app; eapply in_range_weaken; eauto; lia.
+    + apply nodup_app; auto. intros x I J. eapply ranges_disjoint; eauto.
+Qed.
+Lemma clone_leaf_mono : forall deep l cs, (fst cs <= fst (snd (clone_leaf deep l cs)))%N.
+Proof.
+  intros. destruct l; simpl; try lia. destruct deep; simpl; try lia. destruct (memo_get (snd cs) oid); simpl; lia.
+Qed.
+Lemma clone_at_ids : forall dm deep n pa p cs, fresh_spec (fst cs) (clone_at dm deep pa p n cs).
+Proof.
+  intros dm deep n. induction n using node_ind'; intros.
+  - Transparent clone_at. simpl. Opaque clone_at. pose proof (clone_leaf_mono deep l cs).
+    destruct (clone_leaf deep l cs). unfold fresh_spec; simpl in *. repeat split; auto; constructor.
+  - rewrite clone_at_node. cbv zeta.
+    pose proof (clone_items_ids (clone_at dm deep) k dm (fst cs) p its 0 (N.succ (fst cs), snd cs)) as X.
+    assert (F : Forall (fun kv => forall pa q cs, fresh_spec (fst cs) (clone_at dm deep pa q (snd kv) cs)) its).
+    { rewrite Forall_forall in *. intros; apply H; auto. }
+    specialize (X F). clear F.
+    destruct (clone_items (clone_at dm deep) k dm (fst cs) p its 0 (N.succ (fst cs), snd cs)) as [its' cs'].
+    unfold fresh_spec. simpl in *. destruct X as (L & R & ND). fold (ids_items its').
+    split; [lia|]. split.
+    + constructor. lia. eapply in_range_weaken; eauto; lia.
+    + constructor; auto. intro I. unfold in_range in R. rewrite Forall_forall in R. specialize (R _ I). simpl in R. lia.
+Qed.
+
+Lemma ids_seal_rec : forall b n, ids (seal_rec b n) = ids n.
+Proof.
+  intros b n; induction n using node_ind'; simpl; auto. f_equal.
+  rewrite flat_map_concat_map, map_map, <- flat_map_concat_map. simpl.
+  induction its; simpl; auto. inv H. f_equal; auto.
+Qed.
+Lemma ids_ctor_seal : forall n, ids (ctor_seal n) = ids n.
+Proof.
+  destruct n; simpl; auto. destruct (f_sealed fl); auto.
+  change (ids (seal_rec true (Node id k par pth fl items)) = ids (Node id k par pth fl items)). apply ids_seal_rec.
+Qed.
+Definition fresh_spec_b (lo : N) (r : node * N) : Prop :=
+  (lo <= snd r)%N /\ in_range lo (snd r) (ids (fst r)) /\ NoDup (ids (fst r)).
+Lemma build_items_ids : forall rec k ctx me p l i nx,
+  Forall (fun kv => forall c pa q nx, fresh_spec_b nx (rec c pa q (snd kv) nx)) l ->
+  (nx <= snd (build_items rec k ctx me p l i nx))%N /\
+  in_range nx (snd (build_items rec k ctx me p l i nx)) (ids_items (fst (build_items rec k ctx me p l i nx))) /\
+  NoDup (ids_items (fst (build_items rec k ctx me p l i nx))).
+Proof.
+  induction l as [|[kk c] r IH]; simpl; intros.
+  - repeat split. lia. constructor. constructor.
+  - inversion H as [|? ? Hh Ht]; subst; clear H. simpl in Hh.
+    specialize (Hh ctx (Some me) (p ++ [match k with KList => KI i | _ => kk end]) nx).
+    destruct (rec ctx (Some me) (p ++ [match k with KList => KI i | _ => kk end]) c nx) as [c' n1] eqn:R.
+    destruct Hh as (L1 & R1 & N1). simpl in *.
+    specialize (IH (i + 1) n1 Ht).
+    destruct (build_items rec k ctx me p r (i + 1) n1) as [r' n2]. simpl in *.
+    destruct IH as (L2 & R2 & N2).
+    split; [lia|]. split.
+    + apply in_range_app; eapply in_range_weaken; eauto; lia.
+    + apply nodup_app; auto. intros x I J. eapply ranges_disjoint; eauto.
+Qed.
+Lemma build_ids : forall l ctx pa p nx, fresh_spec_b nx (build ctx pa p l nx).
+Proof.
+  induction l using lit_ind'; intros.
+  - Transparent build. simpl. Opaque build. unfold fresh_spec_b; simpl. repeat split; try lia; constructor.
+  - rewrite build_node. cbv zeta.
+    set (fl' := if plain then mkFlags false true ctx 0 else fl).
+    pose proof (build_items_ids build k (f_partial fl') nx p its 0 (N.succ nx)) as X.
+    assert (F : Forall (fun kv => forall c pa q nx, fresh_spec_b nx (build c pa q (snd kv) nx)) its).
+    { rewrite Forall_forall in *. intros; apply H; auto. }
+    specialize (X F). clear F.
+    destruct (build_items build k (f_partial fl') nx p its 0 (N.succ nx)) as [its' nx'].
+    unfold fresh_spec_b. cbn [fst snd] in *. rewrite ids_ctor_seal. simpl. destruct X as (L & R & ND). fold (ids_items its').
+    split; [lia|]. split.
+    + constructor. lia. eapply in_range_weaken; eauto; lia.
+    + constructor; auto. intro I. unfold in_range in R. rewrite Forall_forall in R. specialize (R _ I). simpl in R. lia.
 Qed.
